@@ -35,6 +35,8 @@ def required_cells(tier):
     req["law:idempotent"] = 1000 if q else 10000
     req["law:subset"] = 150 if q else 2500
     req["law:vertices-in-both"] = 500 if q else 8000
+    for hc in ("used-then-moved/receiver", "used-then-moved/returned", "moved/receiver"):
+        req["pose:history/" + hc] = 30
     return req
 
 
@@ -47,6 +49,8 @@ def cases(rng, budget, widx, nworkers, tier):
         a = gen.rand_obj(rng, ka, small=sm())
         r = rng.random()
         b = gen.targeted(rng, kb, a) if r < 0.8 else gen.rand_obj(rng, kb, small=sm())
+        if ka in ("PG", "PH") and kb in ("PG", "PH") and rng.random() < 0.25:
+            (a, b), _lab = gen.body_pair(rng, ka, kb, small=True)      # labelled relative positions incl. strictly nested / small integer boxes
         K.reset()
         try:
             ab = K.as_body(K.inter(a, b))
@@ -62,7 +66,7 @@ def cases(rng, budget, widx, nworkers, tier):
                 c = None
         if c is None:
             c = gen.targeted(rng, kc, rng.choice((a, b))) if rng.random() < 0.7 else gen.rand_obj(rng, kc, small=sm())
-        yield {"a": a, "b": b, "c": c, "ls": rng.getrandbits(30)}
+        yield C.maybe_hist({"a": a, "b": b, "c": c, "ls": rng.getrandbits(30)}, rng, p=0.12, nops=3)
 
 
 def _verts(res):
@@ -99,7 +103,9 @@ def judge(case):
     mu = core.Multi()
     mu.cell("triple:%s,%s,%s" % (ka, kb, kc))
     r = random.Random(case["ls"])
-    A, B, Cc = lift(a, r), lift(b, r), lift(c, r)
+    h = case.get("hist")
+    A, B, Cc = [C.lift_via_history(d, h, r) if (h and h["who"] == i) else lift(d, r) for i, d in enumerate((a, b, c))]
+    mu.cell(*C.hist_cell(case))
     key = "%s,%s,%s" % (ka, kb, kc)
     # idempotence
     res, exc, imp = M.call(G.intersection, A, A)
